@@ -1499,8 +1499,6 @@ def c12(ctx):
     rbase = [c for c in space if not c["bool"] and c["w"] <= 65]
     routed = []
     for c in (rbase if thorough else rr.sample(rbase, 6000)):
-        if thorough and c["k"] not in ("ret", "add1"):
-            continue
         for route in ("local", "param", "unsized", "cast"):
             if route == "unsized" and c["k"] != "ret":
                 continue
